@@ -75,14 +75,12 @@ namespace awkward {
 
   int64_t
   RecordBuilder::length() const {
-    return length_;
+    return (length_ == -1 ? 0 : length_);
   }
 
   void
   RecordBuilder::clear() {
-    for (auto x : contents_) {
-      x.get()->clear();
-    }
+    contents_.clear();
     keys_.clear();
     pointers_.clear();
     name_ = "";
